@@ -2066,6 +2066,14 @@ class BaseInterpreter(Generic[TContext, TEvent]):
                     return [resolved]
             if parent.initial and parent.initial in parent.states:
                 return [parent.states[parent.initial]]
+            if parent.type == "parallel":
+                # 🌐 A parallel parent has no `initial`: its normal entry is
+                #    every region.
+                return [
+                    child
+                    for child in parent.states.values()
+                    if child.type != "history"
+                ]
             return []
 
         if history_node.history == "deep":
@@ -2703,7 +2711,19 @@ class BaseInterpreter(Generic[TContext, TEvent]):
             return parent
 
         # The LCCA is the deepest common ancestor.
-        return max(common_ancestors, key=lambda n: n.depth)
+        domain = max(common_ancestors, key=lambda n: n.depth)
+        # 🕰️ A history child of a *parallel* state restores all of its
+        #    regions, so a transition taken from inside that parallel state
+        #    must leave and re-enter it as a whole. With the parallel state
+        #    itself as the domain nothing was exited and the restored regions
+        #    were entered on top of the still-active ones.
+        if (
+            target_state.type == "history"
+            and target_state.parent is domain
+            and domain.type == "parallel"
+        ):
+            return domain.parent
+        return domain
 
     @staticmethod
     def _get_path_to_state(
